@@ -10,7 +10,7 @@
 (* so the rest of the trace is still examined; a POSTCONDITION makes sure  *)
 (* the whole trace was consumed.                                           *)
 (***************************************************************************)
-EXTENDS G3DBodies, G3DMeasure, G3DRel, G3DSolve, Json, IOUtils, TLC
+EXTENDS G3DBodies, G3DMeasure, G3DRel, G3DSolve, G3DAlg, Json, IOUtils, TLC
 
 Trace == JsonDeserialize(IOEnv.TRACE_FILE)
 VARIABLES l, bad, skipped
@@ -33,24 +33,26 @@ MemOK(x, y) == \/ x.k = "Point" /\ y.k # "Point"
                \/ x.k = "Segment" /\ y.k \in {"Line", "HalfLine", "Segment", "Plane", "Polygon", "Polyhedron"}
                \/ x.k = "HalfLine" /\ y.k \in {"Line", "HalfLine", "Plane"}
                \/ (x.k = "Line" /\ y.k = "Plane") \/ (x.k = "Polygon" /\ y.k \in {"Plane", "Polyhedron"})
-Geo7 == {"Point", "Line", "Plane", "Segment", "HalfLine", "Polygon", "Polyhedron"}
+TGeo7 == {"Point", "Line", "Plane", "Segment", "HalfLine", "Polygon", "Polyhedron"}
 
 \* verdict of one event: "" = conforms, "skip" = outside the checked fragment, otherwise the failing clause
 Verdict(e) ==
   CASE e.op = "intersection" ->
-         IF ~(e.args[1].k \in Geo7 /\ e.args[2].k \in Geo7) THEN "skip"
+         IF ~(e.args[1].k \in TGeo7 /\ e.args[2].k \in TGeo7) THEN "skip"
          ELSE LET a == Norm(e.args[1])  b == Norm(e.args[2])
               IN IF e.res.k = "Exception" THEN "C04.total"
+                 \* the handler that really ran is the one the dispatcher model names (L2 binding)
+                 ELSE IF "h" \in DOMAIN e /\ e.h # Handler(a.k, b.k) THEN "C04.dispatch"
                  ELSE IF Agrees(e.res, Inter(a, b)) THEN "" ELSE InterClause(a, b)
     [] e.op = "in" ->
-         IF ~(e.args[1].k \in Geo7 /\ e.args[2].k \in Geo7 /\ MemOK(e.args[1], e.args[2])) \/ e.res.k # "Bool" THEN "skip"
+         IF ~(e.args[1].k \in TGeo7 /\ e.args[2].k \in TGeo7 /\ MemOK(e.args[1], e.args[2])) \/ e.res.k # "Bool" THEN "skip"
          ELSE IF e.res.b = Subset(Norm(e.args[1]), Norm(e.args[2])) THEN "" ELSE "C05.in"
     [] e.op = "distance" ->
-         IF ~(e.args[1].k \in Geo7 /\ e.args[2].k \in Geo7 /\ DistSupported(e.args[1], e.args[2])) THEN "skip"
+         IF ~(e.args[1].k \in TGeo7 /\ e.args[2].k \in TGeo7 /\ DistSupported(e.args[1], e.args[2])) THEN "skip"
          ELSE IF e.res.k = "Exception" THEN "C10.total"
          ELSE IF R(e.res.q[1], e.res.q[2]) = Dist2(e.args[1], e.args[2]) THEN "" ELSE "C10.distance"
     [] e.op = "move" ->
-         IF e.args[2].k # "Vector" \/ ~(e.args[1].k \in Geo7) THEN "skip"
+         IF e.args[2].k # "Vector" \/ ~(e.args[1].k \in TGeo7) THEN "skip"
          ELSE IF "res" \in DOMAIN e THEN "C07.move_raises"
          ELSE LET x == Translate(Norm(e.args[1]), e.args[2].v)
               IN IF ~Agrees(e.post, x) THEN "C07.receiver"
